@@ -199,7 +199,11 @@ def check_pair(rox, mx, kind, a, fn, prefix=None):
     if type(m).__name__ != kind:
         viol.append(('C08', 'message built as %s classified as %s' % (kind, type(m).__name__)))
     before = snapshot(ro)
-    S = [k['id'] for k in before['kids'] if k['tag'] == 'story']
+    # a story / item of the running order whose own ID is blank can never be referenced (a blank reference matches nothing):
+    # it takes part in the sequences under a placeholder that no message can name
+    BL = '\u2205blank'
+    nz = lambda x: BL if x is None else x
+    S = [nz(k['id']) for k in before['kids'] if k['tag'] == 'story']
     st_el = None
     I = []
     if 'story' in a:
@@ -209,7 +213,7 @@ def check_pair(rox, mx, kind, a, fn, prefix=None):
                 break
         if st_el is not None:
             items_before = story_items(st_el)
-            I = [x['id'] for x in items_before if x['tag'] == 'item']
+            I = [nz(x['id']) for x in items_before if x['tag'] == 'item']
     m_before = str(m)
     exc = None
     with warnings.catch_warnings(record=True) as wl:
@@ -244,9 +248,9 @@ def check_pair(rox, mx, kind, a, fn, prefix=None):
     # ---- placement (C01 / C02) and collateral (C03)
     if E['items'] and st_el is not None:
         items_after = story_items(st_el) if any(k['el'] is st_el for k in after['kids']) else None
-        seq_after = [x['id'] for x in items_after if x['tag'] == 'item'] if items_after is not None else None
+        seq_after = [nz(x['id']) for x in items_after if x['tag'] == 'item'] if items_after is not None else None
     else:
-        seq_after = [k['id'] for k in after['kids'] if k['tag'] == 'story']
+        seq_after = [nz(k['id']) for k in after['kids'] if k['tag'] == 'story']
     seq_before = I if (E['items'] and st_el is not None) else S
     if E['status'] == 'apply':
         if raised:
@@ -284,14 +288,14 @@ def check_pair(rox, mx, kind, a, fn, prefix=None):
             if b != c:
                 viol.append(('C03', 'an item operation changed something outside the addressed story'))
             old = {id(x['el']) for x in items_before}
-            bu = [x['ser'] for x in items_before if not (x['tag'] == 'item' and x['id'] in named)]
-            au = [x['ser'] for x in (items_after or []) if id(x['el']) in old and not (x['tag'] == 'item' and x['id'] in named)]
+            bu = [x['ser'] for x in items_before if not (x['tag'] == 'item' and nz(x['id']) in named)]
+            au = [x['ser'] for x in (items_after or []) if id(x['el']) in old and not (x['tag'] == 'item' and nz(x['id']) in named)]
             if bu != au:
                 viol.append(('C03', 'unnamed children of the addressed story changed or were reordered'))
         else:
             old = {id(k['el']) for k in before['kids']}
-            bu = [k['ser'] for k in before['kids'] if not (k['tag'] == 'story' and k['id'] in named)]
-            au = [k['ser'] for k in after['kids'] if id(k['el']) in old and not (k['tag'] == 'story' and k['id'] in named)]
+            bu = [k['ser'] for k in before['kids'] if not (k['tag'] == 'story' and nz(k['id']) in named)]
+            au = [k['ser'] for k in after['kids'] if id(k['el']) in old and not (k['tag'] == 'story' and nz(k['id']) in named)]
             if bu != au:
                 viol.append(('C03', 'unnamed children of roCreate changed or were reordered'))
     return viol
